@@ -23,8 +23,26 @@ Theorem C21_http_never_on_tls_pool : forall cwt hcs cs, Forall tagged cs ->
 Proof. exact http_never. Qed.
 Print Assumptions C21_http_never_on_tls_pool.
 
+(* Client.ConfigureClient: [trace_conf cwt conf ..] runs the history with an arbitrary function conf applied to every HostClient the
+   Client builds (it may rewrite Addr, IsTLS, WriteTimeout, or fail).  With any conf that leaves Addr alone the two statements above hold
+   unchanged; with ANY conf at all the TLS flag of the connection a request is written to equals the request's https-ness (a flipped
+   IsTLS makes the scheme check refuse, it never lets the request onto the wrong kind of connection). *)
+Theorem C21_https_only_on_tls_conf : forall cwt conf hcs cs, conf_keeps_addr conf -> Forall tagged cs ->
+  https_only_on_tls (obs_dials (trace_conf cwt conf hcs cs)) (obs_writes (trace_conf cwt conf hcs cs)).
+Proof. exact https_only_conf. Qed.
+Print Assumptions C21_https_only_on_tls_conf.
+Theorem C21_http_never_on_tls_pool_conf : forall cwt conf hcs cs, conf_keeps_addr conf -> Forall tagged cs ->
+  http_never_on_tls (obs_dials (trace_conf cwt conf hcs cs)) (obs_writes (trace_conf cwt conf hcs cs)).
+Proof. exact http_never_conf. Qed.
+Print Assumptions C21_http_never_on_tls_pool_conf.
+Theorem C21_tls_matches_any_conf : forall cwt conf hcs cs cid r, Forall tagged cs ->
+  In (EWrite cid r) (trace_conf cwt conf hcs cs) ->
+  exists addr k, In (EDial cid addr k) (trace_conf cwt conf hcs cs) /\ kind_tls k = https_scheme (r_scheme r).
+Proof. exact tls_matches_any_conf. Qed.
+Print Assumptions C21_tls_matches_any_conf.
+
 (* connection ids are dialled once: "the connection's TLS flag / address" above is well defined *)
-Theorem C21_dials_functional : forall cwt hcs cs, Forall tagged cs -> dial_functional (obs_dials (trace cwt hcs cs)).
+Theorem C21_dials_functional : forall cwt conf hcs cs, Forall tagged cs -> dial_functional (obs_dials (trace_conf cwt conf hcs cs)).
 Proof. exact dials_functional. Qed.
 Print Assumptions C21_dials_functional.
 
@@ -44,10 +62,10 @@ Print Assumptions C21_dialAddr_tls_iff_isTLS.
 
 (* HostClient: whatever reaches the wire through a stand-alone HostClient (directly, after redirects, or via LBClient) was sent by a
    HostClient whose IsTLS equals the request's https-ness, on a connection to that HostClient's Addr with the same TLS flag *)
-Theorem C21_hostclient_writes_match : forall cwt hcs cs cid r, Forall tagged cs ->
-  In (EWrite cid r) (trace cwt hcs cs) -> r_via r <> ViaClient ->
+Theorem C21_hostclient_writes_match : forall cwt conf hcs cs cid r, Forall tagged cs ->
+  In (EWrite cid r) (trace_conf cwt conf hcs cs) -> r_via r <> ViaClient ->
   exists i addr wt, nth_error hcs i = Some (addr, https_scheme (r_scheme r), wt) /\
-                    In (EDial cid addr (dialAddr (https_scheme (r_scheme r)) wt)) (trace cwt hcs cs).
+                    In (EDial cid addr (dialAddr (https_scheme (r_scheme r)) wt)) (trace_conf cwt conf hcs cs).
 Proof. exact hostclient_writes_match. Qed.
 Print Assumptions C21_hostclient_writes_match.
 
@@ -56,7 +74,7 @@ Print Assumptions C21_hostclient_writes_match.
 Theorem C21_hostclient_refuses_mismatch : forall i w hc r reps rest count maxred,
   nth_error (w_hcs w) i = Some hc -> hc_tls hc <> https_scheme (r_scheme r) ->
   follow (host_do i) w ((r, reps) :: rest) count maxred =
-    ({| w_cwt := w_cwt w; w_m := w_m w; w_ms := w_ms w; w_hcs := set_nth i hc (w_hcs w); w_next := w_next w |},
+    ({| w_cwt := w_cwt w; w_conf := w_conf w; w_m := w_m w; w_ms := w_ms w; w_hcs := set_nth i hc (w_hcs w); w_next := w_next w |},
      [ERefuse r ESchemeMismatch], OErr ESchemeMismatch).
 Proof. exact host_refuses. Qed.
 Print Assumptions C21_hostclient_refuses_mismatch.
